@@ -246,6 +246,15 @@ def _phase(arg):
                 rec['agg'] = [sorted(tuple(tuple(int(c) for c in r) for r in m) for m in np.asarray(agg[ex]))
                               if ex in agg else None for ex in exist]
                 rec['count'] = int(gen.count_all_matrices(max_by_existence=False))
+            elif kind == 'iter':
+                # the filtered public iteration: matrices of one existence pattern only
+                spec = trace['settings'][op[1]]
+                settings, exist = gen_settings.build(spec)
+                gen = AggregateAssignmentMatrixGenerator(settings)
+                k = op[2] % len(exist)
+                rec['pattern'] = k
+                rec['iter'] = sorted(tuple(tuple(int(c) for c in r) for r in np.asarray(m))
+                                     for m, _ in gen.iter_matrices(existence=exist[k]))
             elif kind == 'reset_sel':
                 settings, _ = gen_settings.build(trace['settings'][op[1]])
                 sel.EncoderSelector(settings).reset_cache()
@@ -432,6 +441,20 @@ def _judge(trace, pi, oi, rec, log, stats, tainted, cold_dir, env):
         if rec['count'] != total:
             raise Viol('C12/count-wrong', f'{where}: count_all_matrices = {rec["count"]}, reference {total}')
         stats['agg_checked'] += 1
+    elif kind == 'iter':
+        spec = trace['settings'][op[1]]
+        log.append(('iter', pi, oi, rec['status'], rec.get('pattern')))
+        if rec['status'] == 'exc':
+            if tainted:
+                stats['probe:explicit_error_after_disk_fault'] += 1
+                return
+            raise Viol(f'C12/iter-matrices-raises/{rec["exc"][0]}@{rec["exc"][2]}', f'{where}: settings {spec}: {rec["exc"]}')
+        pat = ref_conn.all_patterns(spec)[rec['pattern']]
+        want = [tuple(map(tuple, m)) for m in ref_conn.matrices(spec, pat)]
+        if sorted(rec['iter']) != want:
+            raise Viol('C12/iter-matrices-wrong' + ('-after-disk-fault' if tainted else ''),
+                       f'{where}: pattern {pat}: {len(rec["iter"])} matrices, reference {len(want)}; settings {spec}')
+        stats['iter_checked'] += 1
     elif kind == 'keys':
         keys = rec['keys']
         log.append(('keys', tuple(keys)))
@@ -511,12 +534,15 @@ def generate(seed, tier='quick', index=0):
     for p in range(orng.randint(1, 3)):
         ops = []
         for _ in range(orng.randint(1, 4)):
-            k = orng.choices(['select', 'agg', 'reset_sel', 'reset_mat', 'reset_all', 'keys'], [10, 3, 1, 1, 0.5, 1])[0]
+            k = orng.choices(['select', 'agg', 'iter', 'reset_sel', 'reset_mat', 'reset_all', 'keys'],
+                             [10, 3, 2, 1, 1, 0.5, 1])[0]
             si = orng.randrange(len(settings))
             if k == 'select':
                 ops.append(['select', si, orng.random() < 0.8, _gen_plan(orng), orng.random() < 0.9])
             elif k == 'agg':
                 ops.append(['agg', si, orng.random() < 0.7])
+            elif k == 'iter':
+                ops.append(['iter', si, orng.randrange(8)])
             elif k in ('reset_sel', 'reset_mat'):
                 ops.append([k, si])
             else:
@@ -731,7 +757,7 @@ def sample(trace):
 RULE = ('Runs: (a) in-contract sessions over 1-3 generated connector settings (incl. pairs differing in exactly one '
         'attribute and degenerate settings with <= 1 connection set) split into 1-3 phases, each phase a fresh process on a '
         'shared private cache directory: select(cache on/off, limited calls killed at drawn delivery points, candidates '
-        'rejecting, tiny limits), aggregate matrix, counts, cache resets, cache keys; every returned manager is validated '
+        'rejecting, tiny limits), aggregate matrix, per-pattern matrix iteration, counts, cache resets, cache keys; every returned manager is validated '
         'against brute-force R-conn and, when it came through a cache, against the same selection recomputed without any '
         'cache under the same fault plan; (b) the same with cache files torn/lost/flipped between phases (explicit errors '
         'accepted, wrong data never); (c) kill-point enumeration: every (strided) delivery point of one limited call of a '
